@@ -154,15 +154,16 @@ def fma_tables():
     return {"f32": f32, "f64": f64}
 
 
-# operands for fmod / remainder: finite values (a zero only as dividend: x / 0 is not a constant expression),
-# quotients that are exact, inexact, huge (the rounded quotient of gcem::fmod goes wrong), ties for remainder,
-# and infinities (gcem::fmod answers NaN before dividing).  No NaNs; |x / y| stays far below overflow
+# operands for fmod / remainder: zeros of both signs, quotients that are exact, inexact, huge (a rounded quotient
+# goes wrong there), ties for remainder, subnormals (halving an odd subnormal is inexact), limits, infinities.
+# No NaNs (a NaN result is printed without sign anyway)
 def fmod_tables():
     import struct
     vals = [0.0, 5.0, 3.0, -3.0, 5.5, 2.0, -2.0, 7.0, 1.0, 0.5, 2.5, 1.5, -7.5, 6.0, 0.1, 0.03, 1e10, 1e17, 3e-5, 100.0,
             -0.0, 4.0, 9.0, 0.75, float("inf"), float("-inf")]
-    f32 = uniq(struct.unpack("<I", struct.pack("<f", v))[0] for v in vals)
-    f64 = uniq(struct.unpack("<Q", struct.pack("<d", v))[0] for v in vals)
+    f32 = uniq([struct.unpack("<I", struct.pack("<f", v))[0] for v in vals] + [1, 2, 3, 5, 0x80000003, 0x00800000, 0x00800001, 0x7F7FFFFF, 0x7F7FFFFE])
+    f64 = uniq([struct.unpack("<Q", struct.pack("<d", v))[0] for v in vals]
+               + [1, 2, 3, 5, 0x8000000000000003, 0x0010000000000000, 0x0010000000000001, 0x7FEFFFFFFFFFFFFF, 0x7FEFFFFFFFFFFFFE])
     return {"f32": f32, "f64": f64}
 
 
